@@ -188,6 +188,19 @@ def run_case(case):
         ep.create_state_choice_space = wrapped
     try:
         model = dsl.build_lcm_model(desc)
+        if case.get("index", 0) % 2 == 0 and len(model.states) + len(model.choices) >= 2:
+            # process history: a twin made of the SAME grid and function objects, declared in the
+            # reverse order (equal by value, another specification for the layout contract), is
+            # processed right before the judged model
+            try:
+                import lcm as _lcm
+
+                twin = _lcm.Model(n_periods=model.n_periods, functions=dict(reversed(list(model.functions.items()))),
+                                  states=dict(reversed(list(model.states.items()))), choices=dict(reversed(list(model.choices.items()))))
+                pipeline.get_lcm_function(twin, "solve")
+                add("reordered_twins_processed_before")
+            except Exception:  # noqa: BLE001 - the twin is not under test
+                add("reordered_twin_failed")
         f, _ = pipeline.get_lcm_function(model, "solve")
         out = pipeline.to_np_list(f(dsl.lcm_params(params)))
     except Exception as e:  # noqa: BLE001
